@@ -7,15 +7,27 @@ use crate::verif_tape as tape;
 
 /// Any `Uplink` value at all (any <= 15 pending bytes, any flag): what a deserialiser or any
 /// history could have produced.  `wf_uplink` of DESIGN 3.2 is exactly the type invariant of heapless::Vec.
-pub(crate) fn any_uplink() -> Uplink {
+pub(crate) fn any_uplink() -> Uplink { any_uplink_upto(FOPTS_MAX_LEN) }
+/// as `any_uplink`, at most `maxlen` pending bytes
+pub(crate) fn any_uplink_upto(maxlen: usize) -> Uplink {
     let mut u = Uplink::default();
-    let n: usize = tape::below(FOPTS_MAX_LEN + 1);
-    let bytes: [u8; FOPTS_MAX_LEN] = tape::arr();
+    let n: usize = tape::below(maxlen + 1);
     let mut i = 0;
-    while i < FOPTS_MAX_LEN {
-        if i < n { let _ = u.pending.push(bytes[i]); }
+    while i < maxlen {
+        let b = tape::u8();
+        if i < n { let _ = u.pending.push(b); }
         i += 1;
     }
+    u.confirmed = tape::boolean();
+    u
+}
+
+/// any `Uplink` with exactly `n` (concrete) pending bytes of symbolic content: concrete lengths keep every
+/// slice operation downstream at fixed offsets (symbolic lengths cost CBMC millions of array constraints)
+pub(crate) fn any_uplink_len(n: usize) -> Uplink {
+    let mut u = Uplink::default();
+    let mut i = 0;
+    while i < n { let _ = u.pending.push(tape::u8()); i += 1; }
     u.confirmed = tape::boolean();
     u
 }
@@ -30,4 +42,387 @@ pub(crate) fn uplink_eq(a: &Uplink, b: &Uplink) -> bool {
         i += 1;
     }
     true
+}
+
+// ------------------------------------------------------------------------------------------------
+// C08: Uplink::clear_mac_commands / add_mac_command contracts
+// ------------------------------------------------------------------------------------------------
+/// LoRaWAN 1.0.x uplink MAC command payload lengths (CID -> bytes), None for CIDs not defined for uplinks
+pub(crate) fn spec_uplink_cmd_len(cid: u8) -> Option<usize> {
+    match cid {
+        0x02 => Some(0), 0x03 => Some(1), 0x04 => Some(0), 0x05 => Some(1), 0x06 => Some(2), 0x07 => Some(1),
+        0x08 => Some(0), 0x09 => Some(0), 0x0A => Some(1), 0x0D => Some(0),
+        _ => None,
+    }
+}
+/// the answers that must be repeated until the next Class A downlink: RXParamSetupAns, RXTimingSetupAns, DlChannelAns
+pub(crate) fn spec_sticky(cid: u8) -> bool { cid == 0x05 || cid == 0x08 || cid == 0x0A }
+/// whole commands of `p` that are sticky, in order (parsing stops at the first malformed command)
+pub(crate) fn spec_sticky_filter(p: &[u8]) -> ([u8; 15], usize) {
+    let mut out = [0u8; 15];
+    let mut n = 0;
+    let mut i = 0;
+    let mut guard = 0;
+    while guard < 15 {
+        if i < p.len() {
+            match spec_uplink_cmd_len(p[i]) {
+                Some(l) if i + 1 + l <= p.len() => {
+                    if spec_sticky(p[i]) {
+                        let mut k = 0;
+                        while k < 3 { if k <= l { out[n] = p[i + k]; n += 1; } k += 1; }
+                    }
+                    i += 1 + l;
+                }
+                _ => { i = p.len(); }
+            }
+        }
+        guard += 1;
+    }
+    (out, n)
+}
+
+/// the ten uplink commands of LoRaWAN 1.0.x (CID, payload length)
+pub(crate) const UP_CMDS: [(u8, usize); 10] = [(0x02, 0), (0x03, 1), (0x04, 0), (0x05, 1), (0x06, 2), (0x07, 1), (0x08, 0), (0x09, 0), (0x0A, 1), (0x0D, 0)];
+
+/// append one whole command of kind `k` with the given (symbolic) payload bytes to the raw queue
+pub(crate) fn push_raw_cmd(u: &mut Uplink, k: usize, payload: &[u8; 2]) {
+    let (cid, l) = UP_CMDS[k];
+    let _ = u.pending.push(cid);
+    if l >= 1 { let _ = u.pending.push(payload[0]); }
+    if l >= 2 { let _ = u.pending.push(payload[1]); }
+}
+
+/// MAC-command streams are driven by SHAPE (DESIGN 1): a harness fixes the sequence of command kinds
+/// (so every loop of the iterator chain has a concrete trip count) and leaves every payload byte symbolic.
+/// Fully symbolic queues are out of CBMC's reach: 3 arbitrary bytes already need > 3 min in the
+/// filter_map/filter/map/collect chain of clear_mac_commands (measured).
+fn clear_shape(kinds: &[usize], payloads: &[[u8; 2]; 3], confirmed: bool) {
+    let mut u = Uplink::default();
+    u.confirmed = confirmed;
+    let mut i = 0;
+    while i < kinds.len() { push_raw_cmd(&mut u, kinds[i], &payloads[i]); i += 1; }
+    let old = u.clone();
+    u.clear_mac_commands(true);
+    let (exp, n) = spec_sticky_filter(&old.pending);
+    assert!(u.confirmed == old.confirmed, "clear_mac_commands leaves the ACK flag alone");
+    assert!(u.pending.len() == n, "C08 exactly the sticky answers stay queued");
+    let mut k = 0;
+    while k < 15 { if k < n { assert!(u.pending[k] == exp[k], "C08 sticky answers kept byte for byte, in order"); } k += 1; }
+    let mut v = old.clone();
+    v.clear_mac_commands(false);
+    assert!(v.pending.is_empty() && v.confirmed == old.confirmed, "C08 clear_mac_commands(false) empties the queue");
+}
+
+/// recording stub: callers with a fully symbolic queue only need to show THAT the queue is cleaned with the
+/// right argument; what the cleaning does is Uplink::clear_mac_commands' own contract (c08_clear_* harnesses).
+pub(crate) static mut CLEAR_CALLS: u8 = 0;
+pub(crate) static mut CLEAR_RETAIN: bool = false;
+pub(crate) fn stub_clear_record(_u: &mut Uplink, retain_acks: bool) {
+    unsafe { CLEAR_CALLS = CLEAR_CALLS.wrapping_add(1); CLEAR_RETAIN = retain_acks; }
+}
+
+/// contract-stub of Uplink::clear_mac_commands (its contract is discharged per shape by the c08_clear_* harnesses):
+/// used by harnesses of callers whose queue content is fully symbolic.
+pub(crate) fn stub_clear_mac_commands(u: &mut Uplink, retain_acks: bool) {
+    if retain_acks {
+        let (exp, n) = spec_sticky_filter(&u.pending);
+        u.pending.clear();
+        let mut k = 0;
+        while k < 15 { if k < n { let _ = u.pending.push(exp[k]); } k += 1; }
+    } else {
+        u.pending.clear();
+    }
+}
+
+// @verif props=C08,C04 obligation=Uplink::clear_mac_commands.contract[<=1cmd] label=bounded(1-command) tier=quick bound="queues of 0 or 1 whole uplink command (all 11 kind sequences), payload bytes symbolic"
+#[kani::proof]
+#[kani::unwind(17)]
+fn c08_clear_mac_commands_singles() {
+    tape::init();
+    let payloads: [[u8; 2]; 3] = [[tape::u8(), tape::u8()], [tape::u8(), tape::u8()], [tape::u8(), tape::u8()]];
+    let confirmed = tape::boolean();
+    clear_shape(&[], &payloads, confirmed);
+    let mut a = 0;
+    while a < 10 { clear_shape(&[a], &payloads, confirmed); a += 1; }
+    kani::cover!(true, "verif-reached: all shapes done");
+}
+
+// @verif props=C08,C04 obligation=Uplink::clear_mac_commands.contract[2cmds,first=0] label=bounded(2-commands) tier=quick bound="queues of 2 whole uplink commands whose first kind is #0 (10 kind sequences), payload bytes symbolic"
+#[kani::proof]
+#[kani::unwind(17)]
+fn c08_clear_mac_commands_pairs_0() {
+    tape::init();
+    let payloads: [[u8; 2]; 3] = [[tape::u8(), tape::u8()], [tape::u8(), tape::u8()], [tape::u8(), tape::u8()]];
+    let confirmed = tape::boolean();
+    let mut b = 0;
+    while b < 10 { clear_shape(&[0, b], &payloads, confirmed); b += 1; }
+    kani::cover!(true, "verif-reached: all shapes done");
+}
+
+// @verif props=C08,C04 obligation=Uplink::clear_mac_commands.contract[2cmds,first=1] label=bounded(2-commands) tier=quick bound="queues of 2 whole uplink commands whose first kind is #1 (10 kind sequences), payload bytes symbolic"
+#[kani::proof]
+#[kani::unwind(17)]
+fn c08_clear_mac_commands_pairs_1() {
+    tape::init();
+    let payloads: [[u8; 2]; 3] = [[tape::u8(), tape::u8()], [tape::u8(), tape::u8()], [tape::u8(), tape::u8()]];
+    let confirmed = tape::boolean();
+    let mut b = 0;
+    while b < 10 { clear_shape(&[1, b], &payloads, confirmed); b += 1; }
+    kani::cover!(true, "verif-reached: all shapes done");
+}
+
+// @verif props=C08,C04 obligation=Uplink::clear_mac_commands.contract[2cmds,first=2] label=bounded(2-commands) tier=quick bound="queues of 2 whole uplink commands whose first kind is #2 (10 kind sequences), payload bytes symbolic"
+#[kani::proof]
+#[kani::unwind(17)]
+fn c08_clear_mac_commands_pairs_2() {
+    tape::init();
+    let payloads: [[u8; 2]; 3] = [[tape::u8(), tape::u8()], [tape::u8(), tape::u8()], [tape::u8(), tape::u8()]];
+    let confirmed = tape::boolean();
+    let mut b = 0;
+    while b < 10 { clear_shape(&[2, b], &payloads, confirmed); b += 1; }
+    kani::cover!(true, "verif-reached: all shapes done");
+}
+
+// @verif props=C08,C04 obligation=Uplink::clear_mac_commands.contract[2cmds,first=3] label=bounded(2-commands) tier=quick bound="queues of 2 whole uplink commands whose first kind is #3 (10 kind sequences), payload bytes symbolic"
+#[kani::proof]
+#[kani::unwind(17)]
+fn c08_clear_mac_commands_pairs_3() {
+    tape::init();
+    let payloads: [[u8; 2]; 3] = [[tape::u8(), tape::u8()], [tape::u8(), tape::u8()], [tape::u8(), tape::u8()]];
+    let confirmed = tape::boolean();
+    let mut b = 0;
+    while b < 10 { clear_shape(&[3, b], &payloads, confirmed); b += 1; }
+    kani::cover!(true, "verif-reached: all shapes done");
+}
+
+// @verif props=C08,C04 obligation=Uplink::clear_mac_commands.contract[2cmds,first=4] label=bounded(2-commands) tier=quick bound="queues of 2 whole uplink commands whose first kind is #4 (10 kind sequences), payload bytes symbolic"
+#[kani::proof]
+#[kani::unwind(17)]
+fn c08_clear_mac_commands_pairs_4() {
+    tape::init();
+    let payloads: [[u8; 2]; 3] = [[tape::u8(), tape::u8()], [tape::u8(), tape::u8()], [tape::u8(), tape::u8()]];
+    let confirmed = tape::boolean();
+    let mut b = 0;
+    while b < 10 { clear_shape(&[4, b], &payloads, confirmed); b += 1; }
+    kani::cover!(true, "verif-reached: all shapes done");
+}
+
+// @verif props=C08,C04 obligation=Uplink::clear_mac_commands.contract[2cmds,first=5] label=bounded(2-commands) tier=quick bound="queues of 2 whole uplink commands whose first kind is #5 (10 kind sequences), payload bytes symbolic"
+#[kani::proof]
+#[kani::unwind(17)]
+fn c08_clear_mac_commands_pairs_5() {
+    tape::init();
+    let payloads: [[u8; 2]; 3] = [[tape::u8(), tape::u8()], [tape::u8(), tape::u8()], [tape::u8(), tape::u8()]];
+    let confirmed = tape::boolean();
+    let mut b = 0;
+    while b < 10 { clear_shape(&[5, b], &payloads, confirmed); b += 1; }
+    kani::cover!(true, "verif-reached: all shapes done");
+}
+
+// @verif props=C08,C04 obligation=Uplink::clear_mac_commands.contract[2cmds,first=6] label=bounded(2-commands) tier=quick bound="queues of 2 whole uplink commands whose first kind is #6 (10 kind sequences), payload bytes symbolic"
+#[kani::proof]
+#[kani::unwind(17)]
+fn c08_clear_mac_commands_pairs_6() {
+    tape::init();
+    let payloads: [[u8; 2]; 3] = [[tape::u8(), tape::u8()], [tape::u8(), tape::u8()], [tape::u8(), tape::u8()]];
+    let confirmed = tape::boolean();
+    let mut b = 0;
+    while b < 10 { clear_shape(&[6, b], &payloads, confirmed); b += 1; }
+    kani::cover!(true, "verif-reached: all shapes done");
+}
+
+// @verif props=C08,C04 obligation=Uplink::clear_mac_commands.contract[2cmds,first=7] label=bounded(2-commands) tier=quick bound="queues of 2 whole uplink commands whose first kind is #7 (10 kind sequences), payload bytes symbolic"
+#[kani::proof]
+#[kani::unwind(17)]
+fn c08_clear_mac_commands_pairs_7() {
+    tape::init();
+    let payloads: [[u8; 2]; 3] = [[tape::u8(), tape::u8()], [tape::u8(), tape::u8()], [tape::u8(), tape::u8()]];
+    let confirmed = tape::boolean();
+    let mut b = 0;
+    while b < 10 { clear_shape(&[7, b], &payloads, confirmed); b += 1; }
+    kani::cover!(true, "verif-reached: all shapes done");
+}
+
+// @verif props=C08,C04 obligation=Uplink::clear_mac_commands.contract[2cmds,first=8] label=bounded(2-commands) tier=quick bound="queues of 2 whole uplink commands whose first kind is #8 (10 kind sequences), payload bytes symbolic"
+#[kani::proof]
+#[kani::unwind(17)]
+fn c08_clear_mac_commands_pairs_8() {
+    tape::init();
+    let payloads: [[u8; 2]; 3] = [[tape::u8(), tape::u8()], [tape::u8(), tape::u8()], [tape::u8(), tape::u8()]];
+    let confirmed = tape::boolean();
+    let mut b = 0;
+    while b < 10 { clear_shape(&[8, b], &payloads, confirmed); b += 1; }
+    kani::cover!(true, "verif-reached: all shapes done");
+}
+
+// @verif props=C08,C04 obligation=Uplink::clear_mac_commands.contract[2cmds,first=9] label=bounded(2-commands) tier=quick bound="queues of 2 whole uplink commands whose first kind is #9 (10 kind sequences), payload bytes symbolic"
+#[kani::proof]
+#[kani::unwind(17)]
+fn c08_clear_mac_commands_pairs_9() {
+    tape::init();
+    let payloads: [[u8; 2]; 3] = [[tape::u8(), tape::u8()], [tape::u8(), tape::u8()], [tape::u8(), tape::u8()]];
+    let confirmed = tape::boolean();
+    let mut b = 0;
+    while b < 10 { clear_shape(&[9, b], &payloads, confirmed); b += 1; }
+    kani::cover!(true, "verif-reached: all shapes done");
+}
+
+// @verif props=C08,C04 obligation=Uplink::clear_mac_commands.contract[3cmds,first=0] label=bounded(3-commands) tier=thorough bound="queues of 3 whole uplink commands whose first kind is #0 (100 kind sequences), payload bytes symbolic"
+#[kani::proof]
+#[kani::unwind(17)]
+fn c08_clear_mac_commands_triples_0() {
+    tape::init();
+    let payloads: [[u8; 2]; 3] = [[tape::u8(), tape::u8()], [tape::u8(), tape::u8()], [tape::u8(), tape::u8()]];
+    let confirmed = tape::boolean();
+    let mut b = 0;
+    while b < 10 {
+        let mut c = 0;
+        while c < 10 { clear_shape(&[0, b, c], &payloads, confirmed); c += 1; }
+        b += 1;
+    }
+    kani::cover!(true, "verif-reached: all shapes done");
+}
+
+// @verif props=C08,C04 obligation=Uplink::clear_mac_commands.contract[3cmds,first=1] label=bounded(3-commands) tier=thorough bound="queues of 3 whole uplink commands whose first kind is #1 (100 kind sequences), payload bytes symbolic"
+#[kani::proof]
+#[kani::unwind(17)]
+fn c08_clear_mac_commands_triples_1() {
+    tape::init();
+    let payloads: [[u8; 2]; 3] = [[tape::u8(), tape::u8()], [tape::u8(), tape::u8()], [tape::u8(), tape::u8()]];
+    let confirmed = tape::boolean();
+    let mut b = 0;
+    while b < 10 {
+        let mut c = 0;
+        while c < 10 { clear_shape(&[1, b, c], &payloads, confirmed); c += 1; }
+        b += 1;
+    }
+    kani::cover!(true, "verif-reached: all shapes done");
+}
+
+// @verif props=C08,C04 obligation=Uplink::clear_mac_commands.contract[3cmds,first=2] label=bounded(3-commands) tier=thorough bound="queues of 3 whole uplink commands whose first kind is #2 (100 kind sequences), payload bytes symbolic"
+#[kani::proof]
+#[kani::unwind(17)]
+fn c08_clear_mac_commands_triples_2() {
+    tape::init();
+    let payloads: [[u8; 2]; 3] = [[tape::u8(), tape::u8()], [tape::u8(), tape::u8()], [tape::u8(), tape::u8()]];
+    let confirmed = tape::boolean();
+    let mut b = 0;
+    while b < 10 {
+        let mut c = 0;
+        while c < 10 { clear_shape(&[2, b, c], &payloads, confirmed); c += 1; }
+        b += 1;
+    }
+    kani::cover!(true, "verif-reached: all shapes done");
+}
+
+// @verif props=C08,C04 obligation=Uplink::clear_mac_commands.contract[3cmds,first=3] label=bounded(3-commands) tier=thorough bound="queues of 3 whole uplink commands whose first kind is #3 (100 kind sequences), payload bytes symbolic"
+#[kani::proof]
+#[kani::unwind(17)]
+fn c08_clear_mac_commands_triples_3() {
+    tape::init();
+    let payloads: [[u8; 2]; 3] = [[tape::u8(), tape::u8()], [tape::u8(), tape::u8()], [tape::u8(), tape::u8()]];
+    let confirmed = tape::boolean();
+    let mut b = 0;
+    while b < 10 {
+        let mut c = 0;
+        while c < 10 { clear_shape(&[3, b, c], &payloads, confirmed); c += 1; }
+        b += 1;
+    }
+    kani::cover!(true, "verif-reached: all shapes done");
+}
+
+// @verif props=C08,C04 obligation=Uplink::clear_mac_commands.contract[3cmds,first=4] label=bounded(3-commands) tier=thorough bound="queues of 3 whole uplink commands whose first kind is #4 (100 kind sequences), payload bytes symbolic"
+#[kani::proof]
+#[kani::unwind(17)]
+fn c08_clear_mac_commands_triples_4() {
+    tape::init();
+    let payloads: [[u8; 2]; 3] = [[tape::u8(), tape::u8()], [tape::u8(), tape::u8()], [tape::u8(), tape::u8()]];
+    let confirmed = tape::boolean();
+    let mut b = 0;
+    while b < 10 {
+        let mut c = 0;
+        while c < 10 { clear_shape(&[4, b, c], &payloads, confirmed); c += 1; }
+        b += 1;
+    }
+    kani::cover!(true, "verif-reached: all shapes done");
+}
+
+// @verif props=C08,C04 obligation=Uplink::clear_mac_commands.contract[3cmds,first=5] label=bounded(3-commands) tier=thorough bound="queues of 3 whole uplink commands whose first kind is #5 (100 kind sequences), payload bytes symbolic"
+#[kani::proof]
+#[kani::unwind(17)]
+fn c08_clear_mac_commands_triples_5() {
+    tape::init();
+    let payloads: [[u8; 2]; 3] = [[tape::u8(), tape::u8()], [tape::u8(), tape::u8()], [tape::u8(), tape::u8()]];
+    let confirmed = tape::boolean();
+    let mut b = 0;
+    while b < 10 {
+        let mut c = 0;
+        while c < 10 { clear_shape(&[5, b, c], &payloads, confirmed); c += 1; }
+        b += 1;
+    }
+    kani::cover!(true, "verif-reached: all shapes done");
+}
+
+// @verif props=C08,C04 obligation=Uplink::clear_mac_commands.contract[3cmds,first=6] label=bounded(3-commands) tier=thorough bound="queues of 3 whole uplink commands whose first kind is #6 (100 kind sequences), payload bytes symbolic"
+#[kani::proof]
+#[kani::unwind(17)]
+fn c08_clear_mac_commands_triples_6() {
+    tape::init();
+    let payloads: [[u8; 2]; 3] = [[tape::u8(), tape::u8()], [tape::u8(), tape::u8()], [tape::u8(), tape::u8()]];
+    let confirmed = tape::boolean();
+    let mut b = 0;
+    while b < 10 {
+        let mut c = 0;
+        while c < 10 { clear_shape(&[6, b, c], &payloads, confirmed); c += 1; }
+        b += 1;
+    }
+    kani::cover!(true, "verif-reached: all shapes done");
+}
+
+// @verif props=C08,C04 obligation=Uplink::clear_mac_commands.contract[3cmds,first=7] label=bounded(3-commands) tier=thorough bound="queues of 3 whole uplink commands whose first kind is #7 (100 kind sequences), payload bytes symbolic"
+#[kani::proof]
+#[kani::unwind(17)]
+fn c08_clear_mac_commands_triples_7() {
+    tape::init();
+    let payloads: [[u8; 2]; 3] = [[tape::u8(), tape::u8()], [tape::u8(), tape::u8()], [tape::u8(), tape::u8()]];
+    let confirmed = tape::boolean();
+    let mut b = 0;
+    while b < 10 {
+        let mut c = 0;
+        while c < 10 { clear_shape(&[7, b, c], &payloads, confirmed); c += 1; }
+        b += 1;
+    }
+    kani::cover!(true, "verif-reached: all shapes done");
+}
+
+// @verif props=C08,C04 obligation=Uplink::clear_mac_commands.contract[3cmds,first=8] label=bounded(3-commands) tier=thorough bound="queues of 3 whole uplink commands whose first kind is #8 (100 kind sequences), payload bytes symbolic"
+#[kani::proof]
+#[kani::unwind(17)]
+fn c08_clear_mac_commands_triples_8() {
+    tape::init();
+    let payloads: [[u8; 2]; 3] = [[tape::u8(), tape::u8()], [tape::u8(), tape::u8()], [tape::u8(), tape::u8()]];
+    let confirmed = tape::boolean();
+    let mut b = 0;
+    while b < 10 {
+        let mut c = 0;
+        while c < 10 { clear_shape(&[8, b, c], &payloads, confirmed); c += 1; }
+        b += 1;
+    }
+    kani::cover!(true, "verif-reached: all shapes done");
+}
+
+// @verif props=C08,C04 obligation=Uplink::clear_mac_commands.contract[3cmds,first=9] label=bounded(3-commands) tier=thorough bound="queues of 3 whole uplink commands whose first kind is #9 (100 kind sequences), payload bytes symbolic"
+#[kani::proof]
+#[kani::unwind(17)]
+fn c08_clear_mac_commands_triples_9() {
+    tape::init();
+    let payloads: [[u8; 2]; 3] = [[tape::u8(), tape::u8()], [tape::u8(), tape::u8()], [tape::u8(), tape::u8()]];
+    let confirmed = tape::boolean();
+    let mut b = 0;
+    while b < 10 {
+        let mut c = 0;
+        while c < 10 { clear_shape(&[9, b, c], &payloads, confirmed); c += 1; }
+        b += 1;
+    }
+    kani::cover!(true, "verif-reached: all shapes done");
 }
